@@ -88,7 +88,7 @@ struct TreeC : Cont {
     const char *kind() { return "qtreetbl"; }
     bool create(bool ts) { t = qtreetbl(ts ? QTREETBL_THREADSAFE : 0); return t != nullptr; }
     void *mutex() { return t ? t->qmutex : nullptr; }
-    std::vector<const char *> ops() { return {"put", "putstr", "putstrf", "putobj", "remove", "removeobj", "clear", "get", "getstr", "getobj", "getnext-walk", "find_min", "find_max", "find_nearest", "size", "debug", "lock+unlock", "put(NULL name)", "get(NULL name)"}; }
+    std::vector<const char *> ops() { return {"put", "putstr", "putstrf", "putobj", "remove", "removeobj", "clear", "get", "getstr", "getobj", "getnext-walk", "find_min", "find_max", "find_nearest", "size", "debug", "lock+unlock", "put(NULL name)", "get(NULL name)", "put(the key's own stored value)"}; }
     int nmutators() { return 7; }
     Res run(int op, const Args &a) {
         Res r; std::string kz = a.key; const char *k = kz.c_str(); size_t kn = kz.size() + 1;
@@ -113,6 +113,7 @@ struct TreeC : Cont {
             case 15: r.failed = !qtreetbl_debug(t, g_devnull); break;
             case 16: qtreetbl_lock(t); qtreetbl_unlock(t); break;
             case 17: r.failed = !qtreetbl_putobj(t, nullptr, 0, a.val.data(), a.val.size()); break;
+            case 19: { size_t sz = 0; void *p = qtreetbl_getobj(t, k, kn, &sz, false); r.failed = !p || !qtreetbl_putobj(t, k, kn, p, sz); break; }   // data pointer = the table's own copy
             default: r.failed = qtreetbl_getobj(t, nullptr, 0, nullptr, a.newmem) == nullptr;
         }
         return r;
@@ -133,7 +134,7 @@ struct HashC : Cont {
     const char *kind() { return "qhashtbl"; }
     bool create(bool ts) { t = qhashtbl(range, ts ? QHASHTBL_THREADSAFE : 0); return t != nullptr; }
     void *mutex() { return t ? t->qmutex : nullptr; }
-    std::vector<const char *> ops() { return {"put", "putstr", "putstrf", "putint", "remove", "clear", "get", "getstr", "getint", "getnext-walk", "size", "debug", "lock+unlock", "put(NULL)", "get(NULL)", "remove(NULL)"}; }
+    std::vector<const char *> ops() { return {"put", "putstr", "putstrf", "putint", "remove", "clear", "get", "getstr", "getint", "getnext-walk", "size", "debug", "lock+unlock", "put(NULL)", "get(NULL)", "remove(NULL)", "put(the key's own stored value)"}; }
     int nmutators() { return 6; }
     Res run(int op, const Args &a) {
         Res r; const char *k = a.key.c_str();
@@ -155,6 +156,7 @@ struct HashC : Cont {
             case 12: qhashtbl_lock(t); qhashtbl_unlock(t); break;
             case 13: r.failed = !qhashtbl_put(t, nullptr, a.val.data(), a.val.size()); break;
             case 14: r.failed = qhashtbl_get(t, nullptr, nullptr, a.newmem) == nullptr; break;
+            case 16: { size_t sz = 0; void *p = qhashtbl_get(t, k, &sz, false); r.failed = !p || !qhashtbl_put(t, k, p, sz); break; }   // data pointer = the table's own copy
             default: r.failed = !qhashtbl_remove(t, nullptr);
         }
         return r;
@@ -335,7 +337,7 @@ struct VecC : Cont {
     const char *kind() { return "qvector"; }
     bool create(bool ts) { v = qvector(cap, objsize, policy | (ts ? QVECTOR_THREADSAFE : 0)); return v != nullptr; }
     void *mutex() { return v ? v->qmutex : nullptr; }
-    std::vector<const char *> ops() { return {"addfirst", "addlast", "addat", "setfirst", "setlast", "setat", "popfirst", "poplast", "popat", "removefirst", "removelast", "removeat", "reverse", "clear", "resize", "getfirst", "getlast", "getat", "getnext-walk", "toarray", "size", "debug", "lock+unlock", "addat(NULL)"}; }
+    std::vector<const char *> ops() { return {"addfirst", "addlast", "addat", "setfirst", "setlast", "setat", "popfirst", "poplast", "popat", "removefirst", "removelast", "removeat", "reverse", "clear", "resize", "getfirst", "getlast", "getat", "getnext-walk", "toarray", "size", "debug", "lock+unlock", "addat(NULL)", "setat(the element's own storage)"}; }
     int nmutators() { return 15; }
     std::string elem(const Args &a) { std::string e = a.val; e.resize(objsize, 'e'); return e; }
     Res run(int op, const Args &a) {
@@ -364,6 +366,7 @@ struct VecC : Cont {
             case 20: r.obs = std::to_string(qvector_size(v)); break;
             case 21: r.failed = !qvector_debug(v, g_devnull); break;
             case 22: qvector_lock(v); qvector_unlock(v); break;
+            case 24: { void *own = qvector_getat(v, (int)a.idx, false); r.failed = !own || !qvector_setat(v, (int)a.idx, own); break; }   // data pointer = the addressed element itself
             default: r.failed = !qvector_addat(v, (int)a.idx, nullptr);
         }
         return r;
@@ -512,7 +515,11 @@ void run_case(Src &s, Ctx &c) {
     }
 
     // ---- every operation x every allocation index
-    for (int op = 0; op < (int)opn.size() && !s.exhausted(); op++) {
+    // (the walk over the operations starts at a generated offset: when the choice bytes run out before the
+    // end of the list, it is not always the same late operations that go untried)
+    int op_start = (int)s.range(0, (long)opn.size() - 1);
+    for (int opi = 0; opi < (int)opn.size() && !s.exhausted(); opi++) {
+        int op = (op_start + opi) % (int)opn.size();
         int reps = op < nmut ? 2 : 1;
         for (int rep = 0; rep < reps; rep++) {
             Args a = gen_args(s);
